@@ -401,6 +401,7 @@ fn indep_case(out: &mut Out, ctx: &mut Ctx, rng: &mut Rng, kind: &str) {
 	let path = ctx.dir.join(format!("i{}.{kind}", ctx.n));
 	let ps = path.to_str().unwrap().to_string();
 	let mut exact = true;
+	let mut member_order: Vec<C> = vec![];
 	let (tiles, line): (Vec<C>, String) = match kind {
 		"pmtiles" => {
 			let (map, runs) = if rng.chance(3, 4) {
@@ -448,6 +449,26 @@ fn indep_case(out: &mut Out, ctx: &mut Ctx, rng: &mut Rng, kind: &str) {
 			}
 			(coords_of(&map), format!("C03 cov mbtiles 0:1,1,0,0 {}", tiles_str(&coords_of(&map))))
 		}
+		"dir" => {
+			// a directory tree created file by file in shuffled order (readdir order is not sorted)
+			let t = gen_tileset(rng);
+			let map = map_of(&t, rng, false);
+			let mut files: Vec<(String, Vec<u8>)> = map.iter().map(|((z, x, y), p)| (format!("{z}/{x}/{y}.png"), p.clone())).collect();
+			for i in (1..files.len()).rev() {
+				let j = rng.below(i as u64 + 1) as usize;
+				files.swap(i, j);
+			}
+			if rng.chance(1, 2) {
+				files.push(("meta.json".into(), b"{}".to_vec()));
+			}
+			std::fs::create_dir_all(&path).unwrap();
+			if let Err(e) = ind::write_dir(&path, &files) {
+				out.notes.push(format!("independent directory writer failed: {e}"));
+				return;
+			}
+			let order: Vec<C> = files.iter().filter(|f| f.0 != "meta.json").map(|f| { let p: Vec<u32> = f.0.trim_end_matches(".png").split('/').map(|x| x.parse().unwrap()).collect(); (p[1], p[2], p[0] as u8) }).collect();
+			(coords_of(&map), format!("C03 members dir {}", tiles_str(&order)))
+		}
 		_ => {
 			// tar: `./`-prefixed member names, directory members, meta file
 			let t = gen_tileset(rng);
@@ -457,7 +478,57 @@ fn indep_case(out: &mut Out, ctx: &mut Ctx, rng: &mut Rng, kind: &str) {
 			if rng.chance(1, 2) {
 				members.push(ind::TarMember::file(if dot { "./meta.json" } else { "meta.json" }, b"{}"));
 			}
-			for ((z, x, y), p) in &map {
+			// member ORDER is a freedom of the archive (tar -r, other tools): sorted, reversed, shuffled,
+			// levels alternating; plus duplicate members for one coordinate
+			let mut keys: Vec<(u8, u32, u32)> = map.keys().cloned().collect();
+			let order = rng.below(5);
+			match order {
+				0 => {}
+				1 => keys.reverse(),
+				2 => {
+					for i in (1..keys.len()).rev() {
+						let j = rng.below(i as u64 + 1) as usize;
+						keys.swap(i, j);
+					}
+				}
+				_ => {
+					// round robin over the levels: 3/.., 4/.., 3/.., 4/.. …
+					let mut per: BTreeMap<u8, Vec<(u8, u32, u32)>> = BTreeMap::new();
+					for k in &keys {
+						per.entry(k.0).or_default().push(*k);
+					}
+					if order == 4 {
+						for v in per.values_mut() {
+							v.reverse();
+						}
+					}
+					let mut out_keys = vec![];
+					let mut i = 0;
+					loop {
+						let mut any = false;
+						for v in per.values() {
+							if let Some(k) = v.get(i) {
+								out_keys.push(*k);
+								any = true;
+							}
+						}
+						if !any {
+							break;
+						}
+						i += 1;
+					}
+					keys = out_keys;
+				}
+			}
+			out.count(&format!("indep_tar_order_{}", ["sorted", "reversed", "shuffled", "levels_alternating", "levels_alternating_rev"][order as usize]));
+			if rng.chance(1, 3) && !keys.is_empty() {
+				let d = keys[rng.below(keys.len() as u64) as usize];
+				keys.push(d); // the same coordinate once more at the end
+				out.count("indep_tar_duplicate_member");
+			}
+			member_order = keys.iter().map(|(z, x, y)| (*x, *y, *z)).collect();
+			for (z, x, y) in &keys {
+				let p = &map[&(*z, *x, *y)];
 				let mut m = ind::TarMember::file(&format!("{}{z}/{x}/{y}.png", if dot { "./" } else { "" }), p);
 				m.use_prefix = rng.chance(1, 4);
 				members.push(m);
@@ -472,7 +543,7 @@ fn indep_case(out: &mut Out, ctx: &mut Ctx, rng: &mut Rng, kind: &str) {
 			if dot {
 				out.count("indep_tar_dot_prefix");
 			}
-			(coords_of(&map), format!("C03 cov tar 0:1,1,0,0 {}", tiles_str(&coords_of(&map))))
+			(coords_of(&map), format!("C03 members tar {}", tiles_str(&member_order)))
 		}
 	};
 	out.count(&format!("indep_{kind}"));
@@ -490,6 +561,35 @@ fn indep_case(out: &mut Out, ctx: &mut Ctx, rng: &mut Rng, kind: &str) {
 		}
 	}
 	let _ = std::fs::remove_file(&path);
+	let _ = std::fs::remove_dir_all(&path);
+}
+
+/// replay of `C03 members <tar|dir> <x,y,z;…>`: the container lists its tiles in exactly this order
+fn replay_members(out: &mut Out, ctx: &mut Ctx, kind: &str, spec: &str) {
+	let order: Vec<C> = spec.split(';').map(|s| { let p: Vec<&str> = s.split(',').collect(); (p[0].parse().unwrap(), p[1].parse().unwrap(), p[2].parse().unwrap()) }).collect();
+	ctx.n += 1;
+	let path = ctx.dir.join(format!("m{}.{kind}", ctx.n));
+	let line = format!("C03 members {kind} {spec}");
+	if kind == "dir" {
+		let files: Vec<(String, Vec<u8>)> = order.iter().map(|c| (format!("{}/{}/{}.png", c.2, c.0, c.1), payload(c))).collect();
+		std::fs::create_dir_all(&path).unwrap();
+		ind::write_dir(&path, &files).unwrap();
+	} else {
+		let members: Vec<ind::TarMember> = order.iter().map(|c| ind::TarMember::file(&format!("{}/{}/{}.png", c.2, c.0, c.1), &payload(c))).collect();
+		std::fs::write(&path, ind::encode_tar(&members, 2).unwrap()).unwrap();
+	}
+	let mut tiles = order.clone();
+	tiles.sort_by_key(|c| (c.2, c.0, c.1));
+	tiles.dedup();
+	match catch(|| ctx.rt.block_on(get_reader(path.to_str().unwrap()))) {
+		Ok(Ok(rd)) => judge(out, ctx, kind, "indep", rd.as_ref(), &tiles, &line, true, true, None),
+		_ => {
+			out.case(&line, "err", true);
+			out.oracle(false, "C03 open: container with the given member order cannot be opened", json!({"kind": "open_err", "format": kind, "origin": "indep"}), json!({"case": line}));
+		}
+	}
+	let _ = std::fs::remove_file(&path);
+	let _ = std::fs::remove_dir_all(&path);
 }
 
 /// replay of `C03 runs id:n;…` – one payload per run, written with run lengths by the independent encoder
@@ -621,6 +721,8 @@ pub fn run(args: &Args) {
 				let exact = exact_boxes(&tiles);
 				let generous = t[3] != "-" && norm_pyr(&parse_pyr(t[3])) != exact;
 				container_case(&mut out, &mut ctx, t[2], &tiles, generous);
+			} else if t.len() == 4 && t[0] == "C03" && t[1] == "members" {
+				replay_members(&mut out, &mut ctx, t[2], t[3]);
 			} else if t.len() == 3 && t[0] == "C03" && t[1] == "runs" {
 				replay_runs(&mut out, &mut ctx, t[2]);
 			} else if t.len() >= 4 && t[0] == "C03p" {
@@ -662,7 +764,7 @@ pub fn run(args: &Args) {
 	}
 	// spec-valid containers from the independent encoders
 	for i in 0..args.n(240, 3000) {
-		let kind = ["pmtiles", "pmtiles", "pmtiles", "versatiles", "mbtiles", "tar"][i % 6];
+		let kind = ["pmtiles", "pmtiles", "tar", "versatiles", "mbtiles", "tar", "pmtiles", "dir"][i % 8];
 		indep_case(&mut out, &mut ctx, &mut rng, kind);
 	}
 	// pipelines
